@@ -103,7 +103,11 @@ func c14MsgEq(a, b *Message) bool {
 }
 
 // rechunking law: concatenating a prefix first and then the rest gives the same result / fails in the same cases
-func c14Rechunk(msgs []*Message, what string) *Message {
+func c14Rechunk(msgs []*Message, what string) *Message { return c14RechunkParts(msgs, what, false) }
+
+// parts: also the two-part split of "every way of splitting" (used by the families without symbolic strings; with them
+// the comparison of the extra results multiplies the string-solver forks beyond the quick budget)
+func c14RechunkParts(msgs []*Message, what string, parts bool) *Message {
 	all, errAll := ConcatMessages(msgs)
 	for k := 1; k < len(msgs); k++ {
 		pre, errPre := ConcatMessages(msgs[:k])
@@ -116,6 +120,20 @@ func c14Rechunk(msgs []*Message, what string) *Message {
 		vassert((errTwo != nil) == (errAll != nil), what+": prefix-then-rest fails in the same cases as all-at-once")
 		if errAll == nil && errTwo == nil {
 			vassert(c14MsgEq(two, all), what+": prefix-then-rest gives the same message as all-at-once")
+		}
+		if !parts {
+			continue
+		}
+		// "every way of splitting": both parts concatenated on their own (as two nodes of a graph would), then joined
+		post, errPost := ConcatMessages(msgs[k:])
+		if errPost != nil {
+			vassert(errAll != nil, what+": a failing part makes the whole concatenation fail")
+			continue
+		}
+		both, errBoth := ConcatMessages([]*Message{pre, post})
+		vassert((errBoth != nil) == (errAll != nil), what+": the concatenation of the two parts fails in the same cases as all-at-once")
+		if errAll == nil && errBoth == nil {
+			vassert(c14MsgEq(both, all), what+": concatenating the two parts of a split gives the same message as all-at-once")
 		}
 	}
 	// determinism: a second call gives the same outcome
@@ -149,7 +167,7 @@ func VerifC14Content() {
 		want += c
 		msgs = append(msgs, m)
 	}
-	all := c14Rechunk(msgs, "content")
+	all := c14RechunkParts(msgs, "content", true)
 	if all != nil {
 		vassert(all.Content == want, "content is the in-order concatenation of the chunk contents")
 	}
@@ -261,7 +279,7 @@ func VerifC14Meta() {
 		}
 		before = append(before, sn)
 	}
-	c14Rechunk(msgs, "response meta")
+	c14RechunkParts(msgs, "response meta", true)
 	for i, m := range msgs {
 		sn := before[i]
 		if m.ResponseMeta == nil {
@@ -296,7 +314,7 @@ func VerifC14LogProbs() {
 		total += n
 		msgs = append(msgs, m)
 	}
-	all := c14Rechunk(msgs, "log probs")
+	all := c14RechunkParts(msgs, "log probs", true)
 	vassert(all != nil, "log-prob chunks concatenate")
 	if total > 0 {
 		vassert(all.ResponseMeta != nil && all.ResponseMeta.LogProbs != nil && len(all.ResponseMeta.LogProbs.Content) == total, "log probabilities of all chunks are kept, in order")
@@ -586,7 +604,7 @@ func VerifC14ToolCallTypes() {
 		}
 		msgs = append(msgs, m)
 	}
-	all := c14Rechunk(msgs, "tool call types")
+	all := c14RechunkParts(msgs, "tool call types", true)
 	if conflict {
 		vassert(all == nil, "two different types within one tool-call index are an error")
 		return
